@@ -11,7 +11,7 @@ echo "== baseline tests (guard off)"
 echo "== seeded changes"
 for d in seeded/C*/; do
   if grep -q '"obsolete"' "$d/meta.json"; then echo "$(basename "$d"): obsolete (skipped)"; continue; fi
-  if [ -n "${SCRATCH:-}" ]; then r=$(tools/try_seed_scratch.sh "$d" 2>&1 | tail -1); else r=$(tools/try_seed.sh "$d" 2>&1 | tail -1); fi
+  if [ -n "${SCRATCH:-}" ]; then r=$(tools/try_seed_scratch.sh "$d" 2>&1 | grep -a -m1 'CAUGHT\|MISSED\|BROKEN\|does not apply'); else r=$(tools/try_seed.sh "$d" 2>&1 | grep -a -m1 'CAUGHT\|MISSED\|BROKEN\|does not apply\|not clean'); fi
   echo "$(basename "$d"): $r" | cut -c1-200
   case "$r" in *CAUGHT*) ;; *) fail=1;; esac
 done
